@@ -2,7 +2,10 @@
 
 Extracted (fail closed on any other shape):
 
-* `Readout.__init__`              (pyxel/exposure/readout.py)   -> g_ctor
+* `Readout.__init__`              (pyxel/exposure/readout.py)   -> g_ctor, and g_ndarray: is a numpy array given as
+  `times` converted to a list (`if isinstance(times, np.ndarray): times = times.tolist()`) before the source
+  selection?  The start guard is recognised in its negative form (`start >= x[0]`, GStartBelowFirst: NaN passes)
+  and in its positive form (`not start < x[0]`, GStartLtFirst: NaN refused).
 * `Readout.times` setter                                        -> g_set_times
 * `Readout.start_time` setter                                   -> g_set_start
 * `ReadoutProperties.__init__`    (pyxel/detectors/readout_properties.py) -> g_rp
@@ -10,6 +13,13 @@ Extracted (fail closed on any other shape):
   stored / the steps are computed; a guard-shaped statement after that point is refused.
 * `Detector.empty(reset)`         (pyxel/detectors/detector.py) -> which containers are emptied always and
   which only under `if reset:`.
+* `Detector.set_readout(times, start_time, non_destructive)` -> sr_policy: the body is the single store
+  `self._readout_properties = ReadoutProperties(times=times, start_time=start_time,
+  non_destructive=non_destructive)` (SRAlwaysNew), or that store under `if self._readout_properties is None:`
+  (SRKeepExisting); any other body (a path that keeps / edits the existing object, other argument wiring) is
+  refused.  The call in `exposure.run_pipeline` must be the one unconditional statement
+  `detector.set_readout(times=readout.times, start_time=readout.start_time,
+  non_destructive=readout.non_destructive)` placed before the loop.
 """
 from __future__ import annotations
 
@@ -30,7 +40,10 @@ def _guard_kind(test: ast.expr, X: str, S: str) -> str:
     t = ast.unparse(test)
     table = {
         f"{X}[0] == 0": "GFirstNonZero",
-        f"{S} >= {X}[0]": "GStartBelowFirst",
+        f"{S} >= {X}[0]": "GStartBelowFirst",          # negative form: false for NaN, so NaN passes
+        f"{X}[0] <= {S}": "GStartBelowFirst",
+        f"not {S} < {X}[0]": "GStartLtFirst",           # positive form: NaN is refused
+        f"not {X}[0] > {S}": "GStartLtFirst",
         f"not np.all(np.diff({X}) > 0)": "GIncreasing",
         f"{X}.ndim != 1": "GNdim1",
         f"{X}.size == 0": "GNonEmpty",
@@ -108,7 +121,16 @@ def _setter(tree, cls: str, name: str) -> ast.FunctionDef:
     return c[0]
 
 
-def _ctor_guards(fn: ast.FunctionDef) -> list[str]:
+def _is_ndarray_conversion(st: ast.stmt) -> bool:
+    """`if isinstance(times, np.ndarray): times = times.tolist()` (or list(times) / np.asarray(times).tolist())."""
+    return (isinstance(st, ast.If) and not st.orelse
+            and ast.unparse(st.test) in ("isinstance(times, np.ndarray)", "isinstance(times, numpy.ndarray)")
+            and len(st.body) == 1 and _assigns_to(st.body[0], "times")
+            and ast.unparse(st.body[0].value) in ("times.tolist()", "list(times)", "np.asarray(times).tolist()",
+                                                  "np.array(times).tolist()"))
+
+
+def _ctor_guards(fn: ast.FunctionDef) -> tuple[bool, list[str]]:
     names = [a.arg for a in fn.args.args]
     if names != ["self", "times", "times_from_file", "start_time", "non_destructive"]:
         fail(fn, "Readout.__init__ signature")
@@ -117,8 +139,12 @@ def _ctor_guards(fn: ast.FunctionDef) -> list[str]:
     k = next((i for i, st in enumerate(body) if isinstance(st, ast.If) and "times_from_file" in ast.unparse(st.test)), None)
     if k is None:
         fail(fn, "Readout.__init__: source-selection chain not found")
+    ndarray = False
     for st in body[:k]:
-        if not isinstance(st, (ast.Assign, ast.AnnAssign)) or _contains_raise(st):
+        if _is_ndarray_conversion(st):
+            ndarray = True
+            continue
+        if not isinstance(st, (ast.Assign, ast.AnnAssign)) or _contains_raise(st) or _assigns_to(st, "times"):
             fail(st, "unexpected statement before the source selection")
     guards = []
     node = body[k]
@@ -151,7 +177,7 @@ def _ctor_guards(fn: ast.FunctionDef) -> list[str]:
     if not ok_build:
         fail(body[k], "`times` branch must assign self._times = np.array(eval_range(times), ...)")
     guards += _collect(body[k + 1:], "self._times", "start_time", lambda st: _calls(st, "self._set_steps"))
-    return guards
+    return ndarray, guards
 
 
 def _empty_table(fn: ast.FunctionDef) -> tuple[list[str], list[str]]:
@@ -183,12 +209,69 @@ def _empty_table(fn: ast.FunctionDef) -> tuple[list[str], list[str]]:
     return always, if_reset
 
 
+SR_PARAMS = ["times", "start_time", "non_destructive"]
+
+
+def _wired(call: ast.Call, exprs: list[str]) -> bool:
+    """The call passes exactly exprs[k] for parameter SR_PARAMS[k] (positionally or by keyword)."""
+    got = {}
+    if len(call.args) > len(SR_PARAMS) or any(isinstance(a, ast.Starred) for a in call.args):
+        return False
+    for k, a in enumerate(call.args):
+        got[SR_PARAMS[k]] = ast.unparse(a)
+    for kw in call.keywords:
+        if kw.arg is None or kw.arg in got or kw.arg not in SR_PARAMS:
+            return False
+        got[kw.arg] = ast.unparse(kw.value)
+    return got == dict(zip(SR_PARAMS, exprs))
+
+
+def _is_new_rp_store(st: ast.stmt) -> bool:
+    if not _assigns_to(st, "self._readout_properties"):
+        return False
+    v = st.value
+    return (isinstance(v, ast.Call) and ast.unparse(v.func) == "ReadoutProperties" and _wired(v, SR_PARAMS))
+
+
+def _set_readout_policy(fn: ast.FunctionDef) -> str:
+    if [a.arg for a in fn.args.args] != ["self"] + SR_PARAMS or fn.args.vararg or fn.args.kwarg or fn.args.kwonlyargs:
+        fail(fn, "Detector.set_readout signature")
+    body = body_no_doc(fn)
+    if len(body) == 1 and _is_new_rp_store(body[0]):
+        return "SRAlwaysNew"
+    if (len(body) == 1 and isinstance(body[0], ast.If) and not body[0].orelse
+            and ast.unparse(body[0].test) == "self._readout_properties is None"
+            and len(body[0].body) == 1 and _is_new_rp_store(body[0].body[0])):
+        return "SRKeepExisting"
+    fail(body[0] if body else fn, "Detector.set_readout must be the single store of a new ReadoutProperties built "
+                                  "from its three arguments")
+
+
+def _check_run_pipeline_call(tree: ast.Module) -> None:
+    fn = find_func(tree, "run_pipeline")
+    calls = [n for n in ast.walk(fn) if isinstance(n, ast.Call) and isinstance(n.func, ast.Attribute)
+             and n.func.attr == "set_readout"]
+    if len(calls) != 1:
+        fail(fn, f"run_pipeline: {len(calls)} calls of set_readout")
+    withs = [st for st in body_no_doc(fn) if isinstance(st, ast.With)]
+    top = [st for w in withs for st in w.body] + body_no_doc(fn)
+    site = [k for k, st in enumerate(top) if isinstance(st, ast.Expr) and st.value is calls[0]]
+    if not site:
+        fail(calls[0], "run_pipeline: set_readout must be an unconditional statement of the function body")
+    loops = [k for k, st in enumerate(top) if isinstance(st, (ast.For, ast.While))]
+    if not loops or site[0] > loops[0]:
+        fail(calls[0], "run_pipeline: set_readout must precede the readout loop")
+    if ast.unparse(calls[0].func.value) != "detector" or not _wired(
+            calls[0], ["readout.times", "readout.start_time", "readout.non_destructive"]):
+        fail(calls[0], "run_pipeline: set_readout must be given readout.times / .start_time / .non_destructive")
+
+
 def extract(repo: Path) -> dict:
     t_ro = parse(repo, "pyxel/exposure/readout.py")
     t_rp = parse(repo, "pyxel/detectors/readout_properties.py")
     t_det = parse(repo, "pyxel/detectors/detector.py")
 
-    g_ctor = _ctor_guards(find_func(t_ro, "__init__", "Readout"))
+    g_ndarray, g_ctor = _ctor_guards(find_func(t_ro, "__init__", "Readout"))
 
     f = _setter(t_ro, "Readout", "times")
     if [a.arg for a in f.args.args] != ["self", "value"]:
@@ -214,8 +297,10 @@ def extract(repo: Path) -> dict:
     g_rp = _collect(body[1:], "times_1d", "start_time", lambda st: _calls(st, "calculate_steps"))
     # nothing after the steps computation may be validation; the remaining statements are plain stores
     always, if_reset = _empty_table(find_func(t_det, "empty", "Detector"))
-    return dict(g_ctor=g_ctor, g_set_times=g_set_times, g_set_start=g_set_start, g_rp=g_rp,
-                e_always=always, e_if_reset=if_reset)
+    sr = _set_readout_policy(find_func(t_det, "set_readout", "Detector"))
+    _check_run_pipeline_call(parse(repo, "pyxel/exposure/exposure.py"))
+    return dict(g_ndarray=g_ndarray, g_ctor=g_ctor, g_set_times=g_set_times, g_set_start=g_set_start, g_rp=g_rp,
+                e_always=always, e_if_reset=if_reset, sr=sr)
 
 
 def _lst(xs) -> str:
@@ -226,12 +311,14 @@ def render(t: dict) -> str:
     return (HEADER +
             "From Coq Require Import List.\nFrom PyxelV Require Import Model.Exposure.\nImport ListNotations.\n"
             "Definition src_guards : guard_table :=\n"
-            f"  {{| g_ctor := {_lst(t['g_ctor'])};\n"
+            f"  {{| g_ndarray := {'true' if t['g_ndarray'] else 'false'};\n"
+            f"     g_ctor := {_lst(t['g_ctor'])};\n"
             f"     g_set_times := {_lst(t['g_set_times'])};\n"
             f"     g_set_start := {_lst(t['g_set_start'])};\n"
             f"     g_rp := {_lst(t['g_rp'])} |}}.\n"
             "Definition src_empty : empty_table :=\n"
-            f"  {{| e_always := {_lst(t['e_always'])}; e_if_reset := {_lst(t['e_if_reset'])} |}}.\n")
+            f"  {{| e_always := {_lst(t['e_always'])}; e_if_reset := {_lst(t['e_if_reset'])} |}}.\n"
+            f"Definition src_set_readout : sr_policy := {t['sr']}.\n")
 
 
 def translate(repo: Path) -> str:
@@ -240,8 +327,9 @@ def translate(repo: Path) -> str:
 
 # the last accepted shape (the unchanged tree); only used to keep a model for the failing-input search
 FALLBACK = render(dict(
-    g_ctor=["GProvided", "GFirstNonZero", "GStartBelowFirst", "GIncreasing"],
-    g_set_times=["GNdim1", "GNonEmpty", "GFirstNonZero", "GStartBelowFirst"],
-    g_set_start=["GStartBelowFirst"],
-    g_rp=["GNdim1", "GFirstNonZero", "GStartBelowFirst", "GIncreasing"],
-    e_always=["Scene", "Photon", "Charge", "Signal", "Image"], e_if_reset=["Pixel"]))
+    g_ndarray=True,
+    g_ctor=["GProvided", "GFirstNonZero", "GStartLtFirst", "GIncreasing"],
+    g_set_times=["GNdim1", "GNonEmpty", "GFirstNonZero", "GStartLtFirst"],
+    g_set_start=["GStartLtFirst"],
+    g_rp=["GNdim1", "GFirstNonZero", "GStartLtFirst", "GIncreasing"],
+    e_always=["Scene", "Photon", "Charge", "Signal", "Image"], e_if_reset=["Pixel"], sr="SRAlwaysNew"))
